@@ -43,6 +43,7 @@ type Link struct {
 	Partial               int // bytes transferred by the failing call alongside the error
 	WriteSizes            []int
 	ReadSizes             []int
+	OneShot               bool // the injected fault happens once and the transport works again afterwards (default: a failed transport stays failed)
 }
 
 func NewLink() *Link { return &Link{EOFAt: -1, FailRead: -1, FailWrite: -1} }
@@ -50,7 +51,7 @@ func NewLink() *Link { return &Link{EOFAt: -1, FailRead: -1, FailWrite: -1} }
 func (l *Link) Write(p []byte) (int, error) {
 	i := l.WriteCalls
 	l.WriteCalls++
-	if l.FailWrite >= 0 && i > l.FailWrite {
+	if l.FailWrite >= 0 && i > l.FailWrite && !l.OneShot {
 		return 0, ErrInjected // a failed transport stays failed
 	}
 	if i == l.FailWrite {
@@ -79,7 +80,7 @@ func (l *Link) Read(p []byte) (int, error) {
 	if n > avail {
 		n = avail
 	}
-	if l.FailRead >= 0 && i > l.FailRead {
+	if l.FailRead >= 0 && i > l.FailRead && !l.OneShot {
 		return 0, ErrInjected // a failed transport stays failed
 	}
 	if i == l.FailRead {
